@@ -53,6 +53,21 @@ def reencoding(ctx, job):
                                               customs=rnd.sample([1, 2, 3, 4, 5, 6, 7, 9, 10, 11, "end"], rnd.randint(0, 4)),
                                               cname="c" * rnd.randint(0, 9), cpayload=bytes(rnd.getrandbits(8) for _ in range(rnd.randint(0, 9))))))
     facts = []
+    # "absent optional sections mean empty, never garbage": a module that needs none of the optional sections, written with every section present
+    # but empty and with the empty ones omitted (fresh heap memory is filled with 0xA5 for these runs)
+    mm = W.Module()
+    mm.func([W.I32], [W.I32], W.ins("local.get", 0) + W.ins("i32.const", 1) + W.ins("i32.add"))
+    outs = {}
+    for oname, omit in (("empty_sections_present", False), ("empty_sections_omitted", True)):
+        dd = os.path.dirname(ctx.path("gen", "re_" + oname, "x"))
+        wp = os.path.join(dd, "m.wasm")
+        open(wp, "wb").write(mm.encode(omit_empty=omit))
+        r = subprocess.run([ctx.w2c2(), wp, os.path.join(dd, "m.c")], capture_output=True, cwd=dd, timeout=60, env=dict(os.environ, MALLOC_PERTURB_="165"))
+        ok = r.returncode == 0 and os.path.exists(os.path.join(dd, "m.c"))
+        outs[oname] = defs(open(os.path.join(dd, "m.c"), "rb").read()) if ok else None
+        facts.append(("a module without imports, exports, tables, memories, globals, segments or start function (%s) is accepted" % oname.replace("_", " "), ok,
+                      "rc=%s %s module_hex=%s" % (r.returncode, r.stderr.decode(errors="replace")[-200:], mm.encode(omit_empty=omit).hex())))
+    facts.append(("omitting the empty sections gives the same set of C definitions as writing them empty", outs.get("empty_sections_present") is not None and outs.get("empty_sections_present") == outs.get("empty_sections_omitted"), ""))
     for name, v in variants:
         try:
             enc = sample_module(v)
